@@ -433,11 +433,13 @@ def main(argv):
     known_ids = {k["obligation"] for k in known}
 
     def relevant(f, it_props):
-        if pid in it_props:
-            return True
-        if pid == "C04" and f["kind"] in SAFETY_KINDS:
-            return True
-        return False
+        if pid == "C04":
+            # "no panic, no hang": the implicit safety obligations of every extracted function (overflow, callee
+            # preconditions incl. unwrap/expect/index/panic reachability, termination). A failed functional
+            # postcondition or invariant belongs to the property it states, not to C04 - unless C04 is the first
+            # property of the item (dedicated carriers).
+            return f["kind"] in SAFETY_KINDS or bool(it_props and it_props[0] == "C04")
+        return pid in it_props
 
     violations = []
     undecided = []
